@@ -143,37 +143,45 @@ Definition race (tr : list event) : Prop :=
   exists i j e1 e2, i < j /\ nth_error tr i = Some e1 /\ nth_error tr j = Some e2
     /\ fst e1 <> fst e2 /\ conflict (snd e1) (snd e2) = true /\ ~ hb tr i j.
 
-(* executable happens-before: preds j = all i with hb i j, built left to right *)
-Fixpoint edges_into (tr_before : list event) (i : nat) (e : event) : list nat :=
-  match tr_before with
-  | [] => []
-  | e1 :: r => (if sync_edge e1 e then [i] else []) ++ edges_into r (S i) e
+(* executable happens-before: row j = the bit vector (length j) of the positions that happen before j,
+   built left to right; every row is transitively closed because the earlier rows are *)
+Fixpoint vor (a b : list bool) : list bool :=
+  match a, b with
+  | [], _ => b
+  | _, [] => a
+  | x :: a', y :: b' => (x || y) :: vor a' b'
   end.
+
+Fixpoint close_row (direct : list bool) (rows : list (list bool)) (acc : list bool) : list bool :=
+  match direct, rows with
+  | d :: dr, r :: rr => close_row dr rr (if d then vor acc r else acc)
+  | _, _ => acc
+  end.
+
+Fixpoint rows_acc (done_ : list event) (rows : list (list bool)) (todo : list event) : list (list bool) :=
+  match todo with
+  | [] => rows
+  | e :: r =>
+      let direct := map (fun e1 => sync_edge e1 e) done_ in
+      rows_acc (done_ ++ [e]) (rows ++ [close_row direct rows direct]) r
+  end.
+Definition hb_rows (tr : list event) : list (list bool) := rows_acc [] [] tr.
+Definition hb_at (rows : list (list bool)) (i j : nat) : bool := nth i (nth j rows []) false.
+Definition hb_b (tr : list event) (i j : nat) : bool := hb_at (hb_rows tr) i j.
 
 Fixpoint mem_nat (x : nat) (l : list nat) : bool :=
   match l with [] => false | y :: r => Nat.eqb x y || mem_nat x r end.
 
-(* preds_of tr = list, for each position j, of the positions that happen before j *)
-Fixpoint preds_acc (done_ : list event) (acc : list (list nat)) (todo : list event) : list (list nat) :=
-  match todo with
-  | [] => acc
-  | e :: r =>
-      let direct := edges_into done_ 0 e in
-      let all := direct ++ flat_map (fun i => nth i acc []) direct in
-      preds_acc (done_ ++ [e]) (acc ++ [all]) r
-  end.
-Definition preds_of (tr : list event) : list (list nat) := preds_acc [] [] tr.
-Definition hb_b (tr : list event) (i j : nat) : bool := mem_nat i (nth j (preds_of tr) []).
-
-Definition race_at_b (tr : list event) (i j : nat) : bool :=
+Definition race_at_b (tr : list event) (rows : list (list bool)) (i j : nat) : bool :=
   match nth_error tr i, nth_error tr j with
   | Some e1, Some e2 =>
-      Nat.ltb i j && negb (Nat.eqb (fst e1) (fst e2)) && conflict (snd e1) (snd e2) && negb (hb_b tr i j)
+      Nat.ltb i j && negb (Nat.eqb (fst e1) (fst e2)) && conflict (snd e1) (snd e2) && negb (hb_at rows i j)
   | _, _ => false
   end.
 Definition races_b (tr : list event) : list (nat * nat) :=
   let n := length tr in
-  filter (fun p => race_at_b tr (fst p) (snd p)) (list_prod (seq 0 n) (seq 0 n)).
+  let rows := hb_rows tr in
+  filter (fun p => race_at_b tr rows (fst p) (snd p)) (list_prod (seq 0 n) (seq 0 n)).
 
 (* ---------- the Close phase (app/app.go, func (s *App) Close) ------------------------------
 
